@@ -359,7 +359,7 @@ def seeded(tier: str, seed: int) -> list[dict[str, Any]]:
     def addr() -> int:
         return rng.choice([0, 1, 0xFF, 0x100, 0xFFFF, 0x10000, 0x20000000, 0xFFFFFFFF, 0x100000000, rng.randrange(1 << rng.choice([8, 16, 24, 32, 40]))])
 
-    for n in range(200 if tier == "quick" else 4000):
+    for n in range(200 if tier == "quick" else 12000):
         kind = rng.choice(KINDS)
         if kind == "wdbi":
             opt = o_wdbi(did(), rb(rng.choice([1, 1, 2, 8, 40])))
